@@ -120,14 +120,23 @@ pub fn run(env: &Env) -> Report {
                     let learned_splits = (1..n).filter(|i| env.data.suffix.contains_key(&t2[*i..]) && store.contains_key(&t2[..*i])).count();
                     if learned_splits != 1 { continue; }
                     if let Some(j) = join(&core, &sv) {
-                        let o = b.type_text(&mut t, &t2);
-                        if let Some((c5, s5)) = full(&o) {
-                            if c5.contains(&j) && c5.get(s5) != Some(&j) {
-                                rep.violation("C09", "suffixed-choice-not-derived", format!("learned {:?} for {:?}; for {:?} the joined candidate {:?} is offered but {:?} is preselected", core, w, t2, j, c5.get(s5)), ctxv(&b, "suffix"));
+                        // the suffixed form bare, or FIRST wrapped in punctuation and then again (the choice derived for it the first
+                        // time is remembered: it must be the word's, not the wrapped text's)
+                        let variants: Vec<String> = match rng.below(4) { 0 => vec![t2.clone()], 1 => vec![format!("({}", t2), t2.clone()], 2 => vec![format!("{}.", t2), t2.clone(), format!("({})", t2)], _ => vec![format!("({})", t2), format!("{}?", t2), t2.clone()] };
+                        for tv in variants {
+                            if !tv.chars().all(crate::code_ok) { continue; }
+                            let (vp, _, vr) = wrapping(&env.data, &opts, &tv);
+                            if opts.smart_quote && vp.chars().chain(vr.chars()).any(|c| "‘’“”".contains(c)) { continue; }
+                            let exp = format!("{}{}{}", vp, j, vr);
+                            let o = b.type_text(&mut t, &tv);
+                            if let Some((c5, s5)) = full(&o) {
+                                if c5.contains(&exp) && c5.get(s5) != Some(&exp) {
+                                    rep.violation("C09", "suffixed-choice-not-derived", format!("learned {:?} for {:?}; for {:?} the joined candidate {:?} is offered but {:?} is preselected", core, w, tv, exp, c5.get(s5)), ctxv(&b, "suffix"));
+                                }
+                                rep.count(if tv == t2 { "suffix-clause" } else { "suffix-clause-wrapped" });
                             }
-                            rep.count("suffix-clause");
+                            b.finish(&mut t);
                         }
-                        b.finish(&mut t);
                     }
                 }
             }
@@ -229,13 +238,14 @@ pub fn run_c10(env: &Env) -> Report {
             let ctxv = |at: &str| { let mut w = what.clone(); w["at"] = json!(at); w["stream"] = json!("c10"); w };
             let mut s = match Sess::new(t, &env.data, "c", PHONETIC, opts, xdg) { Some(s) => s, None => { rep.violation("C10", "new-context-panics", format!("creating a context panicked: {}", what), ctxv("new")); return None; } };
             let mut seen = vec![];
-            for w in ["ami", "amike", "kor", "korei", "a", ":)", ":er", "emon", "emoner", "tader"] {
+            for w in ["ami", "amike", "kor", "korei", "a", ":)", ":er", "emon", "emoner", "tader", "er", "gulo"] {   // the last two: words that are themselves suffix keys (an empty learned KEY must not be taken for their base)
                 let o = s.type_text(t, w);
                 if o == Obs::Panic { rep.violation("C10", "typing-panics", format!("typing {:?} panicked: {}", w, what), ctxv("type")); return None; }
                 if let Some((c, sl)) = full(&o) {
                     seen.push(format!("{}:{}:{}", w, sl, c.join(",")));
                     let i = if c.len() > 1 { (sl + 1) % c.len() } else { 0 };
                     if s.commit(t, i) == Obs::Panic { rep.violation("C10", "commit-panics", format!("a learning commit panicked: {}", what), ctxv("commit")); return None; }
+                    if s.imp.ongoing() { rep.violation("C10", "commit-keeps-session", format!("after a learning commit the word is still being composed (typing is not working as before): {}", what), ctxv("commit")); return None; }
                 } else { s.finish(t); }
             }
             // a reload in the middle of a word (front-ends call update_engine whenever a setting changes), then a commit of
@@ -414,8 +424,21 @@ pub fn run_c11(env: &Env) -> Report {
         register_layouts(&mut t, env, &lay);
         let layouts = [PHONETIC, PHONETIC, PHONETIC, &lay.probhat, &lay.s1];
         for ci in 0..per {
-            let l1 = rng.pick(&layouts).to_string();
-            let l2 = if rng.chance(60) { l1.clone() } else { rng.pick(&layouts).to_string() };
+            let mut l1 = rng.pick(&layouts).to_string();
+            let mut l2 = if rng.chance(60) { l1.clone() } else { rng.pick(&layouts).to_string() };
+            // the layout FILE of the running context changes on disk before the update (removed; or it is a symbolic link that is
+            // re-pointed to the file the new configuration names): "changed layout" is decided by the configured paths, the new
+            // layout must be loaded whatever happened to the old file
+            let mut disk_change: Option<(u8, PathBuf, String)> = None;
+            if l1 != PHONETIC && rng.chance(40) {
+                let own = env.scratch.join(format!("c11-{}-{}-own-layout.json", ui, ci));
+                let _ = std::fs::remove_file(&own);
+                let other = if l1 == lay.probhat { lay.s1.clone() } else { lay.probhat.clone() };
+                if rng.chance(50) { std::fs::copy(&l1, &own).unwrap(); l2 = if rng.chance(50) { PHONETIC.to_string() } else { other.clone() }; disk_change = Some((0, own.clone(), other)); }
+                else { std::os::unix::fs::symlink(&l1, &own).unwrap(); l2 = other.clone(); disk_change = Some((1, own.clone(), other)); }
+                l1 = own.to_str().unwrap().to_string();
+                t.layout(&l1, &env.tsv);
+            }
             let mut o1 = rand_opts(&mut rng); if rng.chance(70) { o1.phonetic_suggestion = true; }
             let mut o2 = if rng.chance(30) { o1 } else { let mut o = o1; for _ in 0..(1 + rng.below(4)) { let b = rng.below(11); let mut a = o.arr(); a[b] = !a[b]; let bits = a.iter().enumerate().fold(0u32, |acc, (i, x)| acc | ((*x as u32) << i)); o = Opts::from_bits(bits); } o };
             if rng.chance(60) { o2.phonetic_suggestion = true; }
@@ -445,6 +468,10 @@ pub fn run_c11(env: &Env) -> Report {
                 1 => { let ac2: HashMap<String, String> = words.iter().map(|w| (w.clone(), ["bhalo", "mondo", "ki"][rng.below(3)].to_string())).collect(); std::fs::write(ac_path(&xdg), serde_json::to_string(&ac2).unwrap()).unwrap(); set_mtime(&ac_path(&xdg), 5); }
                 2 => { let _ = std::fs::remove_file(ac_path(&xdg)); }
                 _ => { std::fs::write(ac_path(&xdg), b"{\"broken\":").unwrap(); set_mtime(&ac_path(&xdg), 7); }
+            }
+            if let Some((kind, own, other)) = &disk_change {
+                let _ = std::fs::remove_file(own);
+                if *kind == 1 { std::os::unix::fs::symlink(other, own).unwrap(); rep.count("layout-link-repointed-before-update"); } else { rep.count("layout-file-removed-before-update"); }
             }
             if a.update(&mut t, &l2, o2) == Obs::Panic { rep.violation("C11", "update-panics", "update_engine panicked".into(), json!({"stream": "c11", "events": a.events})); continue; }
             // the fresh context with the new configuration over (a copy of) the same files
